@@ -14,3 +14,5 @@ import TrionModel.Props.C14
 import TrionModel.Props.C20
 import TrionModel.Props.C04
 import TrionModel.Props.C19
+import TrionModel.Props.C07
+import TrionModel.Props.C08
